@@ -7,7 +7,7 @@
    labels) satisfies [span_ok]; every text fragment is the input slice at its offset.
    Analysis-stage labels are compared exactly with the implementation and monitored on it. *)
 From CL Require Import Base.StrLemmas Model.Lexer Model.Parser Proofs.LexerProofs
-  Proofs.ParserFM Proofs.ParserTotal Proofs.ParserSpans.
+  Proofs.ParserFM Proofs.ParserTotal Proofs.ParserSpans Proofs.ParserOrder.
 
 Theorem C04_tokens_tile :
   forall (U : N -> ucls) s off ts, lex_at U s off = Some ts -> concat (map tstr ts) = s.
@@ -108,3 +108,35 @@ Theorem C04_diag_labels_refuted_old :
     events U cfg s = Done evs /\ In (EvDiag d) evs /\ In sp (d_labels d) /\ ~ span_ok s sp.
 Proof. exact note_label_old_refuted. Qed.
 Print Assumptions C04_diag_labels_refuted_old.
+
+(* ---- the events come in source order and do not overlap ----
+   [ev_main_span] is the span the monitor orders (harness/src/bin/pmon.rs [ev_span]): the span of
+   a text / front matter, of a metadata entry from the start of its key to the end of its value, of
+   a section name, of a component; Start, End and diagnostics have none.  [ordered] is the monitor's
+   test `c04:order` on every two consecutive spans ([snd a <= fst b] and [fst a <= fst b]).  Together
+   with well-formedness of each span this gives pairwise disjointness (C04_events_disjoint). *)
+Theorem C04_events_ordered :
+  forall (U : N -> ucls) (cfg : pcfg) (s : str) (evs : list pevent),
+    p_strict_escape cfg = false -> events U cfg s = Done evs ->
+    ordered (main_spans evs) /\
+    Forall (fun sp => fst sp <= snd sp /\ snd sp <= blen s) (main_spans evs).
+Proof. exact events_ordered. Qed.
+Print Assumptions C04_events_ordered.
+
+Theorem C04_events_disjoint :
+  forall (U : N -> ucls) (cfg : pcfg) (s : str) (evs : list pevent),
+    p_strict_escape cfg = false -> events U cfg s = Done evs ->
+    ForallOrdPairs (fun a b => snd a <= fst b) (main_spans evs).
+Proof. exact events_disjoint. Qed.
+Print Assumptions C04_events_disjoint.
+
+(* the statement is not vacuous: "a @b{} c" has three ordered spans, and [ordered] rejects an
+   overlap and a span that starts before its predecessor *)
+Example C04_events_ordered_sensitive :
+  (exists evs, events U_plain cfg_old_label [97; 32; 64; 98; 123; 125; 32; 99] = Done evs /\
+               main_spans evs = [(0, 2); (2, 6); (6, 8)]) /\
+  ordered [(0, 2); (2, 6); (6, 8)] /\ ~ ordered [(0, 5); (3, 8)] /\ ~ ordered [(4, 4); (2, 6)].
+Proof.
+  split; [eexists; split; [vm_compute; reflexivity|vm_compute; reflexivity]|].
+  split; [cbn; lia|]. split; cbn; lia.
+Qed.
